@@ -87,7 +87,7 @@ def symbolic_leg(e: Engine, P: Dict[str, Any], model: Any, rest: Dict[str, List[
     next_inner = None
     if exiting is not None:
         d = dummies[wmap[exiting][0]]
-        fn = stubs.Dummy.__aexit__ if an.with_offsets[exiting] else stubs.Dummy.__exit__
+        fn = stubs.DummyManager.__aexit__ if an.with_offsets[exiting] else stubs.DummyManager.__exit__
         next_inner = stubs.FakeFrame(fn.__code__, 0, {"self": d, "exc": ()})
     with warnings.catch_warnings(record=True) as w:
         warnings.simplefilter("always")
